@@ -7,7 +7,8 @@ HERE = os.path.dirname(os.path.dirname(os.path.abspath(__file__)))
 rnd, prefix, first, descf = int(sys.argv[1]), sys.argv[2], int(sys.argv[3]), sys.argv[4]
 only = sys.argv[5:]
 desc = json.load(open(descf))
-ORIGIN = {9: "independent sub-agent given only the property text and a scratch worktree (no access to /verif), told which kinds of change had been tried in earlier rounds (simple slips, shadowing inherent methods, clone_from, needs_drop / cfg guards, rchunks folds, eq shortcuts, deserialize_in_place ..) and asked for two changes of yet another kind: a helper with a new caller it is wrong for, one side of a pair changed, arithmetic through another integer type, Option / Result plumbing that swallows a panic, truncating iterator adaptors, mem::swap / take on the wrong place, overrides for one implementor only, Drop order, added std trait impls",
+ORIGIN = {10: "independent sub-agent given only the property text and a scratch worktree (no access to /verif), asked for ONE small realistic change (helper reused by a wrong caller, one side of a pair, fast path wrong for an unusual shape, guard moved after the effect, wrapping / truncating arithmetic, override on one implementor) that is not among the most obvious ones, within a 9 minute budget (session 4 mini-round)",
+          9: "independent sub-agent given only the property text and a scratch worktree (no access to /verif), told which kinds of change had been tried in earlier rounds (simple slips, shadowing inherent methods, clone_from, needs_drop / cfg guards, rchunks folds, eq shortcuts, deserialize_in_place ..) and asked for two changes of yet another kind: a helper with a new caller it is wrong for, one side of a pair changed, arithmetic through another integer type, Option / Result plumbing that swallows a panic, truncating iterator adaptors, mem::swap / take on the wrong place, overrides for one implementor only, Drop order, added std trait impls",
           8: "independent sub-agent given only the property text and a scratch worktree (no access to /verif), told that simple slips have been tried many times and asked for two changes of a NOVEL kind: cross-call state, element-type / capacity / aliasing dependence, changed trait impl tables or generic bounds, interactions of two correct-looking pieces",
           7: "independent sub-agent given only the property text and a scratch worktree (no access to /verif), asked for three changes in the HARD ARITHMETIC at the heart of the property (counts, offsets, loop bounds, running variables, direction choices) that leave every assertion, bounds check and dimension choice intact",
           6: "independent sub-agent given only the property text and a scratch worktree (no access to /verif), asked for three changes of three different kinds: (1) two cooperating sites that each look fine alone, (2) a new override / specialisation / fast path that is subtly wrong, (3) a small slip that needs an unusual input or a multi-step history to manifest",
